@@ -4,6 +4,7 @@
 
   request : {"op":"comp","proc":<proc as exported by harness/export_ir.py, AFTER MemoryAnalysis>,
              "bounds":[[[name,id],lo|null,hi|null],...],   -- range_env of the size arguments
+             "cb":[[calleeName,[[[name,id],lo|null,hi|null],...]],...],   -- range_env of every callee (optional)
              "ctype":"float","short":"f32"}
   answer  : {"ok":[line,...],"modOK":bool,"freeOK":bool}   the body lines `compL` + printer produce, the ghost
                                                  F6 flag, and whether the emitted body satisfies the static
@@ -37,7 +38,12 @@ def handle (line : String) : Json :=
           let p ← proc (← fld j "proc")
           let bounds ← parseBounds (← fld j "bounds")
           let pr : CompileS.Prec := ⟨← str (← fld j "ctype"), ← str (← fld j "short")⟩
-          match printP pr p bounds with
+          let cb ← match j.getObjVal? "cb" with
+            | .ok cbj => (← arr cbj).toList.mapM (fun e => do
+                let a ← arr e
+                pure (← str a[0]!, ← parseBounds a[1]!))
+            | .error _ => pure []
+          match printP pr p bounds cb with
           | .ok (ls, k, fo) => pure (Json.mkObj [("ok", .arr (ls.map Json.str).toArray), ("modOK", .bool k),
               ("freeOK", .bool fo)])
           | .error e =>
